@@ -1,5 +1,6 @@
 """C15 — client peer pool: bounded, never hands out closed peers, End/Close always returns and
-closes everything, failed rendezvous never kills the client (client/lib peers.go, webrtc.go)."""
+closes everything, failed rendezvous is reported, retried and never kills the client (client/lib peers.go,
+webrtc.go, snowflake.go connectLoop; the event listener of client/snowflake.go)."""
 import itertools
 import os
 import threading
@@ -475,7 +476,10 @@ def run(ctx):
         "model = coq/Model/Peers.v (interleaving machine, V1 = code with proposed-fixes/C15-*.diff), coq/Model/Connect.v and coq/Model/CloseConn.v (SnowflakeConn.Close over the Peers machine); tie = correspondence on scripted schedules run to quiescence after each op, and on Dial/Close scenarios through the exported API",
         "one collector thread (connectLoop) per Peers; WebRTCPeer.Close and library calls return",
         "scripts whose outcome depends on the Go scheduler (flagged by the model adapter) are not compared",
-        "failures of CreateDataChannel/CreateOffer/SetLocalDescription are covered by the theorem but cannot be provoked from outside pion, so the correspondence does not exercise them",
+        "failures of CreateDataChannel/CreateOffer/SetLocalDescription are covered by the theorem but cannot be provoked in the unmodified code (only webrtc.Configuration{ICEServers} reaches pion; reasons in the header of coq/Properties/C15.v), so the correspondence does not exercise them",
+        "every connect / close / retry scenario has an event listener that does what client/snowflake.go's ptEventLogger does (pt.Log(pt.LogSeverityNotice, e.String()), goptlib's Stdout redirected to io.Discard); a panic in it is caught and reported as term=1 (key client-process-terminated): in the client binary it would end the process",
+        "DataChannelTimeout and ReconnectTimeout are constants (10 s each), not variables: the driver cannot shorten them; the scenarios that wait for them (connect 'noopen', retry scenarios: up to 2 failures 10 s apart) run in background driver processes while the peers scripts run, so they add no wall time",
+        "retry scenarios: 'unreach' = the scripted broker drops the connection without an HTTP answer; 'ice' = ICEAddresses [\"\"] (what -ice \"\" gives): every attempt fails before the broker is asked; attempts are counted as EventOnOfferCreated events",
     ]
     # The close / retry scenarios mostly wait (ReconnectTimeouts): the driver is started on them now, in the
     # background, and its answers are compared at the end.  The same goes for the connect cases that wait for a
